@@ -339,8 +339,10 @@ class Ctx:
         ev = {"property_id": self.pid, "tier": self.tier, "seed": self.seed, "level": level, "coverage": c,
               "assumptions": self.assumptions, "wall_s": round(time.time() - self.t0, 2), "violations": self.violations,
               "known_findings_seen": self.known}
-        os.makedirs(os.path.join(VERIF, "evidence"), exist_ok=True)
-        p = os.path.join(VERIF, "evidence", self.pid + ".json")
+        # X.. ids are extensions of the specification beyond the listed properties: their evidence lives apart
+        edir = "evidence_extra" if self.pid.startswith("X") else "evidence"
+        os.makedirs(os.path.join(VERIF, edir), exist_ok=True)
+        p = os.path.join(VERIF, edir, self.pid + ".json")
         json.dump(ev, open(p + ".tmp", "w"), indent=1)
         os.replace(p + ".tmp", p)
 
